@@ -61,6 +61,27 @@ Theorem C16_pack_unpack_intmod : forall (p : Z) (c : cfg) m z (s : @Gadgets.gst 
   run (unpack_v c (KIntMod m) (py_bits z (bitlen_of m)) 0) s = (inl (PInt z), s, []).
 Proof. intros p c. exact (pack_unpack_intmod c). Qed.
 
+(* out-of-range plain values are rejected: for every modulus, every plain integer outside [0, m), in every state, pack raises
+   ValueError in the unchanged state; the only trace entry is the unconditional raise itself: nothing is allocated, no constraint
+   emitted (with C16_pack_unpack_intmod: pack of a plain integer succeeds iff 0 <= z < m) *)
+Theorem C16_pack_rejects_out_of_range : forall (p : Z) m z (s : @Gadgets.gst p), z < 0 \/ m <= z ->
+  run (pack_v (KIntMod m) (PInt z)) s = (inr ValueError, s, [CRaiseIf BTrue ValueError (unw_triple s)]).
+Proof. intros p m z s H. cbn [pack_v]. replace ((z <? 0) || (m <=? z)) with true by lia. reflexivity. Qed.
+Theorem C16_pack_plain_succeeds_iff_in_range : forall (p : Z) m z (s : @Gadgets.gst p),
+  (exists r, run (pack_v (KIntMod m) (PInt z)) s = (inl r, s, [])) <-> 0 <= z < m.
+Proof.
+  intros p m z s. split.
+  - intros [r Hr]. destruct (Z_lt_dec z 0) as [L|L]; [rewrite (C16_pack_rejects_out_of_range p m z s (or_introl L)) in Hr; discriminate|].
+    destruct (Z_le_dec m z) as [U|U]; [rewrite (C16_pack_rejects_out_of_range p m z s (or_intror U)) in Hr; discriminate|]. lia.
+  - intros Hz. eexists. cbn [pack_v]. replace ((z <? 0) || (m <=? z)) with false by lia. reflexivity.
+Qed.
+Example C16_reject_example : forall (p : Z) (s : @Gadgets.gst p),
+  run (pack_v (KIntMod 10) (PInt 10)) s = (inr ValueError, s, [CRaiseIf BTrue ValueError (unw_triple s)]) /\
+  run (pack_v (KIntMod 10) (PInt (-1))) s = (inr ValueError, s, [CRaiseIf BTrue ValueError (unw_triple s)]) /\
+  exists r, run (pack_v (KIntMod 10) (PInt 9)) s = (inl r, s, []).
+Proof. intros p s. split; [apply C16_pack_rejects_out_of_range; lia|]. split; [apply C16_pack_rejects_out_of_range; lia|].
+  apply (proj2 (C16_pack_plain_succeeds_iff_in_range p 10 9 s)). lia. Qed.
+
 (* the round trip of a secret integer through PackIntMod(m): for every modulus with a non-empty field, every secret value, every
    generator state satisfying the invariant.  [wp ... Q] for every Q implied by the value fact = every run of the round trip that
    does not raise ends with that fact (Wp.wp_sound). *)
@@ -94,3 +115,5 @@ Print Assumptions C16_bits_recompose.
 Print Assumptions C16_honest_bits.
 Print Assumptions C16_width_enforced.
 Print Assumptions C16_assert_positive_width.
+Print Assumptions C16_pack_rejects_out_of_range.
+Print Assumptions C16_pack_plain_succeeds_iff_in_range.
